@@ -1,6 +1,7 @@
 package inactivity
 
 import (
+	"time"
 	"unsafe"
 
 	"go.uber.org/atomic"
@@ -25,6 +26,27 @@ func NewKeepAlive[C Conn](maxRetries uint32, onInactive OnInactiveFunc[C], sendP
 		sendPing:   sendPing,
 		onInactive: onInactive,
 	}
+}
+
+// KeepAliveMonitor is an inactivity monitor driving a KeepAlive. Every message received from the
+// peer proves that the connection is alive, so it also resets the number of unanswered pings.
+type KeepAliveMonitor[C Conn] struct {
+	*Monitor[C]
+	keepAlive *KeepAlive[C]
+}
+
+// NewKeepAliveMonitor creates a monitor which invokes keepAlive.OnInactive after duration of inactivity.
+func NewKeepAliveMonitor[C Conn](duration time.Duration, keepAlive *KeepAlive[C]) *KeepAliveMonitor[C] {
+	return &KeepAliveMonitor[C]{
+		Monitor:   New(duration, keepAlive.OnInactive),
+		keepAlive: keepAlive,
+	}
+}
+
+// Notify records activity of the peer.
+func (m *KeepAliveMonitor[C]) Notify() {
+	m.keepAlive.resetFails()
+	m.Monitor.Notify()
 }
 
 func (m *KeepAlive[C]) checkCancelPing() {
